@@ -194,6 +194,12 @@ func (sr *StreamReader) ReadBinary() ([]byte, error) {
 		return nil, err
 	}
 
+	return sr.readBinaryOfLength(length)
+}
+
+// readBinaryOfLength reads the body of a binary value whose length prefix
+// has already been consumed.
+func (sr *StreamReader) readBinaryOfLength(length int32) ([]byte, error) {
 	if length < 0 {
 		return nil, decodeErrorf("negative length %v specified for binary field", length)
 	}
@@ -214,7 +220,7 @@ func (sr *StreamReader) ReadBinary() ([]byte, error) {
 	}
 
 	bs := make([]byte, length)
-	_, err = sr.read(bs)
+	_, err := sr.read(bs)
 	return bs, err
 }
 
